@@ -230,6 +230,22 @@ fn normalizer_oracle(mk: fn(&mut Xot) -> HVocab, t: &GTree, start_path: &[usize]
         None => return,
     };
     let (sa, sb) = (na[idx], nb[idx]);
+    // the Write-based entry point called directly: outcome, the bytes delivered into a Vec, and whether a sink
+    // that accepts a few bytes per write() call received the same bytes
+    let written: Vec<(Res, String, bool)> = {
+        let h = xa.html5();
+        params
+            .iter()
+            .map(|p| {
+                let mut buf = Vec::new();
+                let w = res_of(guarded(|| h.serialize_write_with_normalizer(to_params(&ha, p), sa, &mut buf, FullwidthNormalizer).map(|_| String::new())));
+                let mut cw = crate::common::ChunkWriter::new(1 + buf.len() % 3);
+                let w2 = res_of(guarded(|| h.serialize_write_with_normalizer(to_params(&ha, p), sa, &mut cw, FullwidthNormalizer).map(|_| String::new())));
+                let short_ok = !(matches!(w, Res::Ok(_)) && matches!(w2, Res::Ok(_))) || cw.data == buf;
+                (w, String::from_utf8_lossy(&buf).to_string(), short_ok)
+            })
+            .collect()
+    };
     let results: Vec<(Res, Res)> = {
         let a: Vec<Res> = {
             let h = xa.html5();
@@ -242,6 +258,28 @@ fn normalizer_oracle(mk: fn(&mut Xot) -> HVocab, t: &GTree, start_path: &[usize]
         a.into_iter().zip(b).collect()
     };
     let tree_wire = format!("{} {}", path_str(start_path), tf.wire());
+    for (p, ((a, _), (w, bytes, short_ok))) in params.iter().zip(results.iter().zip(written.iter())) {
+        let shown = |r: &Res| match r {
+            Res::Ok(_) => "ok".to_string(),
+            Res::Err(e, _) => e.clone(),
+            Res::Panic => "panic".to_string(),
+        };
+        // correspondence: the model's `serializeHtmlWriteN fullwidthNorm` (outcome and bytes written)
+        sink.emit(format!("html write_norm {} {}", p.wire(), tree_wire), format!("{} {}", shown(w), enc(bytes)));
+        sink.stat(&format!("normalizer.write-request.{}", match w { Res::Ok(_) => "ok", Res::Err(..) => "err", Res::Panic => "panic" }));
+        if !*short_ok {
+            fail(sink, &Finding { signature: "C19:write-loses-bytes-on-short-writing-sink".to_string(), what: "serialize_write_with_normalizer into a sink that accepts a few bytes per call delivers other bytes than into a Vec".to_string() }, &tf, start_path, p, a);
+        }
+        let agree = match (a, w) {
+            (Res::Ok(x), Res::Ok(_)) => x == bytes,
+            _ => shown(a) == shown(w),
+        };
+        if agree {
+            sink.stat("oracle.C19.write_with_normalizer-equals-string_with_normalizer");
+        } else {
+            fail(sink, &Finding { signature: "C19:write_with_normalizer-differs-from-string_with_normalizer".to_string(), what: format!("serialize_write_with_normalizer: {} {}", shown(w), short(bytes)) }, &tf, start_path, p, a);
+        }
+    }
     for (p, (a, b)) in params.iter().zip(results.iter()) {
         // correspondence: the model's `serializeHtmlStringN fullwidthNorm` on the same tree
         sink.emit(
@@ -551,6 +589,10 @@ fn normalizer_boundary(sink: &mut Sink) {
             } else {
                 let r = res_of(guarded(|| h.serialize_string_with_normalizer(to_params(&hv, &p), root, FullwidthNormalizer)));
                 sink.emit(format!("html string_norm {} . {}", p.wire(), t.wire()), show(r));
+                let mut buf = Vec::new();
+                let w = res_of(guarded(|| h.serialize_write_with_normalizer(to_params(&hv, &p), root, &mut buf, FullwidthNormalizer).map(|_| String::new())));
+                let ws = match &w { Res::Ok(_) => "ok".to_string(), Res::Err(e, _) => e.clone(), Res::Panic => "panic".to_string() };
+                sink.emit(format!("html write_norm {} . {}", p.wire(), t.wire()), format!("{} {}", ws, enc(&String::from_utf8_lossy(&buf))));
             }
             sink.stat("normalizer.boundary.boolean-attribute");
         }
